@@ -165,7 +165,7 @@ def variants(graph, E, sem, level):
                 for E1 in subsets(E):
                     if E1 != "" and E1 != E:
                         out.append(["scale", sc, "psp", E1])
-    if level["param"]:
+    if level["param"] and sem in level["param_sems"]:
         seen = set()
         for k, s in enumerate(graph):
             if s in seen:
@@ -179,12 +179,12 @@ def variants(graph, E, sem, level):
 
 LEVELS = {
     # quick: everything on <=3 factors / 2 variables / 2 plates
-    "q3": dict(splits=True, md_splits=False, scales=True, scale_splits=False, param=True, param_psp=False),
+    "q3": dict(splits=True, md_splits=False, scales=True, scale_splits=False, param=True, param_psp=False, param_sems=(0, 1)),
     # thorough, small pool: more variants
-    "t3": dict(splits=True, md_splits=True, scales=True, scale_splits=True, param=True, param_psp=True),
+    "t3": dict(splits=True, md_splits=True, scales=True, scale_splits=True, param=True, param_psp=True, param_sems=(0, 1, 2)),
     # thorough, large pool
-    "big": dict(splits=True, md_splits=False, scales=True, scale_splits=False, param=False, param_psp=False),
-    "big1": dict(splits=False, md_splits=False, scales=False, scale_splits=False, param=False, param_psp=False),
+    "big": dict(splits=True, md_splits=False, scales=True, scale_splits=False, param=False, param_psp=False, param_sems=()),
+    "big1": dict(splits=False, md_splits=False, scales=False, scale_splits=False, param=False, param_psp=False, param_sems=()),
 }
 
 
@@ -350,8 +350,16 @@ def _compare(tables, sem, sizes, kept, expected, eliminated):
         )
 
 
-def _reference(fs, sizes, ev, ep, sem, scales=None):
-    """-> (kept, table or None, tractable).  table is None only for a scaled request without nesting."""
+def _reference(fs, sizes, ev, ep, sem, scales=None, original=False):
+    """-> (kept, table or None, tractable).  table is None only for a scaled request without nesting.
+
+    ``original``: fs are the tables of the graph held in the worker cache (memoised per request)."""
+    if original:
+        memo = _CACHE["oracle"]
+        key = (tuple(sorted(ev)), tuple(sorted(ep)), sem, tuple(map(tuple, scales)) if scales else None)
+        if key not in memo:
+            memo[key] = _reference(fs, sizes, ev, ep, sem, scales)
+        return memo[key]
     if scales:
         try:
             kept, tab = plated.unroll_nested(fs, sizes, ev, ep, sem, scales)
@@ -359,12 +367,7 @@ def _reference(fs, sizes, ev, ep, sem, scales=None):
         except plated.Intractable:
             return plated.kept_names([n for n, _ in fs], ev, ep), None, False
     kept, tab = plated.unroll(fs, sizes, ev, ep, sem)
-    try:
-        plated.unroll_nested([(n, np.zeros(np.shape(a))) for n, a in fs], sizes, ev, ep, "max-add")
-        tract = True
-    except plated.Intractable:
-        tract = False
-    return kept, tab, tract
+    return kept, tab, plated.tractable([n for n, _ in fs], ev, ep)
 
 
 class Run:
@@ -382,7 +385,7 @@ class Run:
         self.labels = []
 
     # -- one API call on ``factors`` (funsor objects) whose reference inputs are ``fs`` (named tables) ----------
-    def step(self, api, funsor_factors, fs, E, declared, tval, pedantic=False, scales=None, conv="elim", want="list"):
+    def step(self, api, funsor_factors, fs, E, declared, tval, pedantic=False, scales=None, conv="elim", original=False):
         """Execute one call and judge it against the reference of its own request.
 
         Returns the list of returned funsors (None if the call legitimately raised ValueError)."""
@@ -422,7 +425,7 @@ class Run:
                 raise Bad("pedantic-missed", "pedantic=True accepted a preserved variable inside an eliminated plate")
             self.labels.append("ValueError:pedantic")
             return None
-        kept, expected, tract = _reference(fs, self.sizes, ev, ep, self.sem, scales)
+        kept, expected, tract = _reference(fs, self.sizes, ev, ep, self.sem, scales, original)
         if kind == "ValueError":
             if tract:
                 raise Bad(
@@ -449,7 +452,6 @@ def _with_param(fs, k, tval, sem):
 
 
 def check(case, seed):
-    case = lang.tuplify(case)
     prof, graph, E, semi, variant = case
     case = [prof, list(graph), E, semi, _listify(variant)]
     run = Run(case, seed)
@@ -486,11 +488,11 @@ def _execute(run):
     kind = variant[0]
 
     if kind == "psp":
-        run.step("psp", tensors, fs, E, declared, None, pedantic=bool(variant[1]))
+        run.step("psp", tensors, fs, E, declared, None, pedantic=bool(variant[1]), original=True)
     elif kind == "sp":
-        run.step("sp", tensors, fs, E, declared, None)
+        run.step("sp", tensors, fs, E, declared, None, original=True)
     elif kind in ("mod", "dyn"):
-        run.step(kind, tensors, fs, E, declared, None, conv=variant[1])
+        run.step(kind, tensors, fs, E, declared, None, conv=variant[1], original=True)
     elif kind == "einsum":
         _einsum(run, tensors, fs, declared)
     elif kind == "param":
@@ -500,7 +502,7 @@ def _execute(run):
     elif kind == "scale":
         scales = [(p, s) for p, s in variant[1]]
         if variant[3] == "":
-            run.step(variant[2], tensors, fs, E, declared, None, scales=scales)
+            run.step(variant[2], tensors, fs, E, declared, None, scales=scales, original=True)
         else:
             _split(run, tensors, fs, declared, variant[3], variant[2], scales)
     else:
@@ -519,7 +521,7 @@ def _split(run, tensors, fs, declared, E1, api, scales):
             raise observe.Decline("skipped:first-call-ambiguous-for-declared-plates")
     # first call: plates = all plates of the graph; second call: only the plates it eliminates (the API intersects
     # ``plates`` with ``eliminate`` itself, so both conventions must agree)
-    r1 = run.step(api, tensors, fs, E1, declared, None, scales=scales, conv=conv)
+    r1 = run.step(api, tensors, fs, E1, declared, None, scales=scales, conv=conv, original=True)
     if r1 is None:
         return
     fs1 = _tables(r1, None)
@@ -537,7 +539,7 @@ def _split(run, tensors, fs, declared, E1, api, scales):
         return
     ev = frozenset(c for c in E if c in VARS)
     ep = frozenset(c for c in E if c in PLATES)
-    kept, expected, tract = _reference(fs, run.sizes, ev, ep, run.sem, scales)
+    kept, expected, tract = _reference(fs, run.sizes, ev, ep, run.sem, scales, True)
     if expected is None:
         run.labels.append("composed:no-reference")
         return
@@ -596,7 +598,7 @@ def _einsum(run, tensors, fs, declared):
         raise observe.Decline("NotImplementedError:output-plate-missing-from-an-operand")
     ev = frozenset(c for c in E if c in VARS)
     ep = frozenset(c for c in E if c in PLATES)
-    kept, expected, tract = _reference(fs, run.sizes, ev, ep, run.sem)
+    kept, expected, tract = _reference(fs, run.sizes, ev, ep, run.sem, None, True)
     if kind == "ValueError":
         if tract:
             raise Bad("spurious-ValueError", "einsum(%r) raised ValueError(%r) for a nested request" % (eq, res))
